@@ -216,9 +216,10 @@ Variable LATEST : N.
 
 Definition SHORTN := name_short_name T.
 
-(* a type fit for SHORT-NAME elements: character content, and every accepted value is a string without '/' *)
+(* a type fit for SHORT-NAME elements: character content, not a reference, and every accepted value is a string
+   without '/' *)
 Definition short_type (ty : N * N) : Prop :=
-  content_mode T ty = Val MCharacters /\
+  content_mode T ty = Val MCharacters /\ is_ref T ty = Val false /\
   forall cs v ver, chardata_spec T ty = Val (Some cs) -> check_value check_fn v cs ver = Val true ->
     exists s, v = DString s /\ ~ In 47 s.
 
